@@ -1,2 +1,3 @@
 pub mod host;
 pub mod vm;
+pub mod asm;
